@@ -323,6 +323,7 @@ let step_preds : (string * (vconfig -> fstep -> bool)) list = [
   ("c02_eof_wakes", c02_eof_wakes);
   ("c02_zero_window_waker", c02_zero_window_waker);
   ("c02_timer_ok", c02_timer_ok);
+  ("c02_timer_ok_g", c02_timer_ok_g);
   ("c02_rto_armed", c02_rto_armed);
   ("c02_no_silent_stall", c02_no_silent_stall);
   ("c05_window_ok", c05_window_ok);
